@@ -31,7 +31,8 @@ type c17Case struct {
 	Ops []c17Op `json:"ops"`
 }
 
-var c17Names = []string{"d1", "d2", "d3", "shop", "shop2", "d"}
+// (among them words that are keywords of the implementation language, not of SQL)
+var c17Names = []string{"d1", "d2", "d3", "shop", "shop2", "d", "import", "type", "range", "default", "go"}
 
 func c17Gen(rt *rapid.T) c17Case {
 	dbs := map[string]*model.DB{}
